@@ -7,6 +7,7 @@
    partial new directory) and the kill point [k] are universally quantified. *)
 From Coq Require Import List NArith Bool.
 From Conductor Require Import Lib.Str Model.Archive Proofs.ArchiveProofs.
+From Conductor Require Import Gen.Generated Proofs.GenTieArchive.
 Import ListNotations.
 Open Scope N_scope.
 
@@ -68,3 +69,21 @@ Example C12_nonvacuous :
     ({| p_rows := [ex_row [97] 2; ex_row [97] 1]; p_dirs := [(([97], 2), 20); (([97], 1), 10)];
         p_stage := false; p_aidx := None |}, true).
 Proof. repeat split; vm_compute; reflexivity. Qed.
+
+(* Tie to the source, re-checked on every run: the ORDER of the steps of the model's restore program is
+   the one TRANSLATED from cli/restore.py main in the working tree -- empty the staging directory and
+   recreate it, extract, look for the archive's index, load it, insert the rows (uncommitted), list
+   the versions, per row: staged directory present? copy, destination present?, and only then
+   commit; on any error roll back; finally remove the staging directory.  Committing before the
+   copies, or dropping a presence test, breaks this equality. *)
+Theorem C12_restore_order_is_the_sources : forall x,
+  gen_restore_before_loop = [1; 2; 3; 4; 5; 6; 7] /\
+  gen_restore_on_error = [12] /\ gen_restore_finally = [1] /\
+  flat_map instr_steps (program x) =
+    without_copy_entries gen_restore_before_loop
+    ++ flat_map (fun _ => gen_restore_loop_body) (staged_rows x) ++ gen_restore_after_loop /\
+  program x = [IMkdir; IExtract; ICheckIndex; ILoadIndex] ++ map IInsert (staged_rows x)
+              ++ IListVersions :: flat_map (fun r => [ICheckSrc (row_key r); ICopy (row_key r); ICheckDst (row_key r)]) (staged_rows x)
+              ++ [ICommit].
+Proof. exact restore_order_tie. Qed.
+Print Assumptions C12_restore_order_is_the_sources.
